@@ -38,8 +38,35 @@ Definition obs_of (s : state) : list (nid * Z) :=
 Definition reg_of (s : state) : list nid :=
   filter (fun n => inGraph (nd s n) = true) (seq 0 (next s)).
 
-Definition observe_state (c : errclass) (s : state) : eobs :=
-  EObs false c (rev (log s)) (numNodes s) (sortn (Heap.ids (heap s))) (reg_of s) (obs_of s) (vals_of s).
+(* sort key of an event (mirrors Event.Code in the harness) *)
+Definition b2z (b : bool) : Z := if b then 1 else 0.
+Definition class_code (c : errclass) : Z :=
+  match c with XOk => 0 | XCycle => 1 | XLimit => 2 | XUser => 3 | XPanic => 4 | XCancelled => 5
+             | XAlready => 6 | XNil => 7 end.
+Definition ev_code (e : event) : list Z :=
+  match e with
+  | EvInvoked n args r => 1 :: Z.of_nat n :: r :: args
+  | EvFault n w k => [2; Z.of_nat n; b2z (match w with WCut => true | WFn => false end);
+                      b2z (match k with FPanic => true | FErr => false end)]
+  | EvCutoff n o nw v => [3; Z.of_nat n; o; nw; b2z v]
+  | EvBindFn n x root => [4; Z.of_nat n; x; match root with Some r => Z.of_nat r + 1 | None => 0 end]
+  | EvNec n => [5; Z.of_nat n] | EvUnnec n => [6; Z.of_nat n] | EvInval n => [7; Z.of_nat n]
+  | EvUpd n => [8; Z.of_nat n] | EvObsUpd o v => [9; Z.of_nat o; v] | EvErrH n => [10; Z.of_nat n]
+  | EvPassStart => [11] | EvPassEnd c => [12; class_code c]
+  end.
+Fixpoint lex_leb (a b : list Z) : bool :=
+  match a, b with
+  | [], _ => true
+  | _ :: _, [] => false
+  | x :: a, y :: b => if x <? y then true else if y <? x then false else lex_leb a b
+  end.
+Definition ev_le (a b : event) : Prop := lex_leb (ev_code a) (ev_code b) = true.
+Global Instance ev_le_dec : RelDecision ev_le.
+Proof. intros a b. unfold ev_le. apply _. Defined.
+Definition sort_events (l : list event) : list event := merge_sort ev_le l.
+
+Definition observe_state (sorted : bool) (c : errclass) (s : state) : eobs :=
+  EObs false c (if sorted then sort_events (rev (log s)) else rev (log s)) (numNodes s) (sortn (Heap.ids (heap s))) (reg_of s) (obs_of s) (vals_of s).
 
 (* which projection differs first; 0 = none *)
 Definition diff_code (a b : eobs) : nat :=
@@ -54,7 +81,7 @@ Definition diff_code (a b : eobs) : nat :=
 
 (* (operation index, code): 8 = operation not well-formed, 9 = out of fuel,
    10 = model crashed but the implementation did not, 11 = implementation crashed, model did not *)
-Fixpoint replay (s : state) (tr : list (op * eobs)) (i : nat) : option (nat * nat) :=
+Fixpoint replay (sorted : bool) (s : state) (tr : list (op * eobs)) (i : nat) : option (nat * nat) :=
   match tr with
   | [] => None
   | (o, expected) :: tr =>
@@ -62,8 +89,8 @@ Fixpoint replay (s : state) (tr : list (op * eobs)) (i : nat) : option (nat * na
     match step (s <| log := [] |>) o with
     | Ok (s', e) =>
       if e_crashed expected then Some (i, 11%nat) else
-      match diff_code (observe_state (classify e) s') expected with
-      | O => replay s' tr (S i)
+      match diff_code (observe_state sorted (classify e) s') expected with
+      | O => replay sorted s' tr (S i)
       | c => Some (i, c)
       end
     | Crash _ => if e_crashed expected then None else Some (i, 10%nat)
@@ -71,9 +98,10 @@ Fixpoint replay (s : state) (tr : list (op * eobs)) (i : nat) : option (nat * na
     end
   end.
 
-Definition case := (nat * list (op * eobs))%type.     (* MaxHeight option, trace *)
+(* MaxHeight option, whether events are compared as multisets (parallel graph), trace *)
+Definition case := (nat * bool * list (op * eobs))%type.
 
 Definition mismatches (cs : list case) : list (nat * (nat * nat)) :=
-  omap (fun '(k, (mh, tr)) => match replay (init mh) tr 0 with
-                              | Some m => Some (k, m) | None => None end)
+  omap (fun '(k, (mh, sorted, tr)) => match replay sorted (init mh) tr 0 with
+                                      | Some m => Some (k, m) | None => None end)
        (imap (fun k c => (k, c)) cs).
